@@ -132,7 +132,15 @@ def run_case(ctx: Any, expected: Expected, case: Dict[str, Any], name: str, what
         ini_methods = {int(k): v for k, v in case["ini_methods"].items()} or None
         ws.write(hists, accounting_methods=ini_methods, layout=case.get("layout"))
         window_args = (["-f", case["from"]] if case.get("from") else []) + (["-t", case["to"]] if case.get("to") else [])
-        res = ws.run(case["country"], case["args"] + window_args, audit=False)
+        warmup = None
+        if case.get("warm"):
+            # the report under test is the second one written by its interpreter: the first run processed the same files with
+            # another window (none, or from the middle of the history on), so its sheets were laid out differently
+            days = sorted({str(r["ts"])[:10] for h in hists.values() for r in h["rows"]})
+            other_window = [] if window_args else ["-f", days[len(days) // 2]]
+            warmup = [list(case["args"]) + other_window + ["-o", ws.new_out(), ws.ini, ws.ods]]
+            ctx.count("reports_written_second_in_one_interpreter")
+        res = ws.run(case["country"], case["args"] + window_args, audit=False, warmup=warmup)
         ctx.count("executions")
         ctx.count("cli_runs")
         if res.exit != 0:
